@@ -191,6 +191,35 @@ Proof.
 Qed.
 Print Assumptions c01_session_single_writer_check_then_set_refuted.
 
+(* ---- the run-local counter of a session stream ----
+   A run emits its frames at a sequence of sites; a site writes a frame carrying the counter and adds k to
+   it.  Every site adds exactly one => the run's stream is 0,1,2,.. *)
+Theorem c01_run_counter :
+  forall (sid : N) (sites : list (etype * N)),
+  forallb is_sess (map fst sites) = true -> Forall (fun s => snd s = 1) sites ->
+  Valid (run_frames sid 0 sites).
+Proof. exact run_counter_valid. Qed.
+Print Assumptions c01_run_counter.
+
+(* ... as built: the static emit sites of session.rs (provider pipe, request frames, refused tool calls),
+   rip-tools' ToolRunner::emit and the provider frame mapper are re-extracted on every run
+   (Gen/AppendOps.v gen_emit_sites = (line, increments that follow), obligation gen_emit_sites_ok: every
+   site increments exactly once); a run all of whose emissions happen at those sites numbers 0,1,2,.. *)
+Theorem c01_run_counter_as_built :
+  forall (sid : N) (run : list (etype * N)),
+  forallb is_sess (map fst run) = true ->
+  Forall (fun s => In (snd s) (map snd gen_emit_sites)) run ->
+  Valid (run_frames sid 0 run).
+Proof. exact (fun sid run => run_counter_valid_static gen_emit_sites sid run gen_emit_sites_ok). Qed.
+Print Assumptions c01_run_counter_as_built.
+
+(* REFUTED for a site that forgets its increment (the shape of seeded change C01-3: the provider_event frame
+   of a request failing local validation): the run's closing frame repeats the seq *)
+Theorem c01_run_counter_missing_increment_refuted :
+  validate (run_frames 7 0 w_noinc_run) = false /\ map seq (run_frames 7 0 w_noinc_run) = [0; 1; 1].
+Proof. exact w_noinc_invalid. Qed.
+Print Assumptions c01_run_counter_missing_increment_refuted.
+
 (* non-vacuity: four clients on one session next to a thread creation, another run and a task pump meet
    the hypotheses, and one schedule of theirs writes 7 frames on 4 streams *)
 Example c01_session_hypotheses_satisfiable :
